@@ -356,6 +356,40 @@ func genPeerOn(rt *rapid.T, nm *hx.NodeMachine, cfg genCfg, parent int) hx.NOp {
 		s.Apply(tx, hx.Ring[op.Proposer].Address)
 		op.Txs = append(op.Txs, spec)
 	}
+	// sometimes re-use transactions of blocks on OTHER branches that are still valid here (the same
+	// transaction on competing branches: transaction-to-block mapping, duplicate rule, reorganisation)
+	if rapid.IntRange(0, 3).Draw(rt, "foreign") == 0 {
+		onChain := map[int]bool{}
+		for j := parent; j >= 0; j = m.Blocks[j].Parent {
+			onChain[j] = true
+		}
+		var cands []*pb.Transaction
+		for _, b := range m.Blocks {
+			if onChain[b.Idx] || !b.Stored {
+				continue
+			}
+			for _, t := range nm.BlockTxs[b.Idx] {
+				// not the ones spending once-frozen outputs: their validity depends on the ledger
+				// height at play time, not on the branch
+				thawed := false
+				for _, ti := range t.TxInputs {
+					if ti.FrozenHeight != 0 {
+						thawed = true
+					}
+				}
+				if !t.Coinbase && !t.Autogen && !thawed {
+					cands = append(cands, t)
+				}
+			}
+		}
+		for k := 0; k < 2 && len(cands) > 0; k++ {
+			t := cands[rapid.IntRange(0, len(cands)-1).Draw(rt, "foreigntx")]
+			if s.Check(t, h) == nil {
+				s.Apply(t, hx.Ring[op.Proposer].Address)
+				op.Old = append(op.Old, hex.EncodeToString(t.Txid))
+			}
+		}
+	}
 	// sometimes include transactions the node has pending
 	inclOdds := 2
 	if parent == nm.Ptr {
